@@ -188,6 +188,7 @@ def fork_cases():
         check_fields(ctx, pre, ex0, "new transaction / test", skip=("known_keys", "known_sigs"))
         ctx.oblige("new transaction: starts with an empty stack, memory and loop record at pc 0 in a fresh call context", z3.BoolVal(ex0.st.stack == [] and len(ex0.st.memory) == 0 and ex0.jumpis == {} and ex0.pc == 0 and ex0.context.trace == [] and ex0.context.message is msg and ex0.path is newpath))
         ctx.oblige("new transaction: keys and signatures of earlier transactions are not inherited by reference", z3.BoolVal(ex0.known_keys is not pre.known_keys and ex0.known_sigs is not pre.known_sigs))
+        ctx.oblige("new transaction: the copies start equal to the pre-state's: counters (the address allocator behind CREATE, symbol ids), aliases, accounts, balance", z3.BoolVal(dict(ex0.cnts) == dict(pre.cnts) and sum(pre.cnts.values()) > 0 and len(ex0.alias) == len(pre.alias) and set(map(str, ex0.code)) == set(map(str, pre.code)) and ex0.balance is pre.balance), info={"pre": str(dict(pre.cnts)), "new": str(dict(ex0.cnts))})
         ctx.oblige("new transaction: it starts from exactly the post-setUp state, the keys and signatures known there included (their distinctness facts are on the path)", z3.BoolVal(len(pre.known_keys) > 0 and dict(ex0.known_keys) == dict(pre.known_keys) and dict(ex0.known_sigs) == dict(pre.known_sigs)), info={"pre": len(pre.known_keys), "new": len(ex0.known_keys)})
         # the test works on its state ...
         sevm.sstore(ex0, THIS, hb.HalmosBitVec(1), hb.HalmosBitVec(1234))
@@ -424,6 +425,8 @@ def build_cases(tier="quick"):
     from contracts.common import rewrap
 
     ref += rewrap(PROP, c14.default_block_cases(), "per-deployment-block")
+    # state built by one explored path is never visible to another: the running state keeps the shared solver only if it is taken next (C02's unit)
+    ref += rewrap(PROP, c02.multi_return_cases(), "paths-apart-after-a-multi-valued-return")
     return classify_cases() + fork_cases() + main_cases() + copy_cases() + ref
 
 
